@@ -177,29 +177,36 @@ theorem chain_pythiaWrites (cfg : Cfg) (ts : List Trial) (op0 : SugOp) (st : Stu
     · exact ⟨trivial, trivial, trivial⟩
     · exact ⟨trivial, chain_createWrites cfg ts op0 _ need out _⟩
 
+theorem chain_suggestRestWrites (cfg : Cfg) (op0 : SugOp) (st : Study) (client : String) (count : Nat)
+    (alg : AlgOutcome) : ChainOK cfg st.trials st (suggestRestWrites cfg op0 st client count alg) := by
+  unfold suggestRestWrites
+  simp only
+  split
+  · exact ⟨trivial, trivial⟩
+  · rw [chain_append]
+    constructor
+    · apply chain_puts
+      intro a ha
+      obtain ⟨t, ht, rfl⟩ := assignRequested_spec _ _ _ a ha
+      have htm := List.mem_filter.mp ht
+      have hreq : t.state = .requested := by simpa using htm.2
+      refine ⟨t, htm.1, rfl, ?_⟩
+      rw [trialStepOK_iff]
+      exact ⟨by simp [hreq, legal], rfl, fun hc => by simp [hreq, TState.completed] at hc, fun hne => absurd hreq hne⟩
+    · split
+      · exact chain_single cfg _ _ _ trivial
+      · rw [applyWrites_putTrials]
+        exact chain_pythiaWrites cfg _ _ _ _ _ alg
+
 theorem chain_suggestWrites (cfg : Cfg) (st : Study) (client : String) (count : Nat) (alg : AlgOutcome) :
     ChainOK cfg st.trials st (suggestWrites cfg st client count alg) := by
   unfold suggestWrites
   simp only
   split
-  · trivial
   · split
-    · exact ⟨trivial, trivial, trivial⟩
-    · rw [chain_append]
-      constructor
-      · refine ⟨trivial, ?_⟩
-        apply chain_puts
-        intro a ha
-        obtain ⟨t, ht, rfl⟩ := assignRequested_spec _ _ _ a ha
-        have htm := List.mem_filter.mp ht
-        have hreq : t.state = .requested := by simpa using htm.2
-        refine ⟨t, htm.1, rfl, ?_⟩
-        rw [trialStepOK_iff]
-        exact ⟨by simp [hreq, legal], rfl, fun hc => by simp [hreq, TState.completed] at hc, fun hne => absurd hreq hne⟩
-      · split
-        · exact chain_single cfg _ _ _ trivial
-        · rw [applyWrites_cons, applyWrites_putTrials]
-          exact chain_pythiaWrites cfg _ _ _ _ _ alg
+    · exact chain_suggestRestWrites cfg _ st client count alg
+    · trivial
+  · exact ⟨trivial, chain_suggestRestWrites cfg _ { st with sugOps := st.sugOps ++ [_] } client count alg⟩
 
 /-- **C05 (SuggestTrials)**: whatever prefix of its datastore writes survived the crash, the study's
     trials are a legal evolution of the trials before the call: legal states, unchanged parameters,
